@@ -403,6 +403,15 @@ func genCodec(t *Tracer, m *Meta, tier string, seed int64) {
 		}
 		for gi, g := range gens {
 			te, err := encode.NewTypeEncoderEndian(g(), bo)
+			switch gi % 3 {
+			case 1:
+				// the constructor that takes the type instead of a value
+				te, err = encode.NewTypeEncoderEndianByType(reflect.TypeOf(g()), bo)
+			case 2:
+				// a POINTER to the zero value (the constructor dereferences it)
+				pv := reflect.New(reflect.TypeOf(g()))
+				te, err = encode.NewTypeEncoderEndian(pv.Interface(), bo)
+			}
 			if err != nil {
 				panic(err)
 			}
